@@ -811,3 +811,183 @@ Proof.
   exists (t :: l). inversion Hs as [Hb]. rewrite <- Hb in *.
   repeat split; auto. discriminate.
 Qed.
+
+(* ==== the bound is a parameter of every process start ====================================================== *)
+Lemma v_step_r st it :
+  vr (fst (v_step st it)) = fst (r_step (vmax st) (vr st) (v_plain it)) /\
+  snd (v_step st it) = snd (r_step (vmax st) (vr st) (v_plain it)) /\
+  vmax (fst (v_step st it)) = v_next_max (vmax st) it.
+Proof.
+  unfold v_step. destruct (r_step (vmax st) (vr st) (v_plain it)) as [rst' r].
+  destruct it as [o|m|o n m]; cbn [fst snd vr vmax v_next_max]; auto.
+Qed.
+
+Lemma v_run_cons st it r :
+  v_run st (it :: r) =
+  (fst (v_run (fst (v_step st it)) r), snd (v_step st it) :: snd (v_run (fst (v_step st it)) r)).
+Proof.
+  cbn [v_run]. destruct (v_step st it) as [st' o]. cbn [fst snd].
+  destruct (v_run st' r) as [st'' os]. reflexivity.
+Qed.
+
+Lemma sv_run_cons max q it r :
+  sv_run max q (it :: r) =
+  (fst (sv_run (v_next_max max it) (fst (s_item max q (v_plain it))) r),
+   snd (s_item max q (v_plain it)) :: snd (sv_run (v_next_max max it) (fst (s_item max q (v_plain it))) r)).
+Proof.
+  cbn [sv_run]. destruct (s_item max q (v_plain it)) as [q' o]. cbn [fst snd].
+  destruct (sv_run (v_next_max max it) q' r) as [q'' os]. reflexivity.
+Qed.
+
+(* the refinement, bounds changing from process to process: the invariant [RInv] does not mention any bound *)
+Theorem v_refines : forall h st q,
+  RInv (vr st) q ->
+  snd (v_run st h) = snd (sv_run (vmax st) (map snd q) h) /\
+  exists q', RInv (vr (fst (v_run st h))) q' /\ map snd q' = fst (sv_run (vmax st) (map snd q) h).
+Proof.
+  induction h as [|it r IH]; intros st q HI.
+  - cbn. split; [reflexivity|]. exists q. auto.
+  - destruct (v_step_r st it) as (Hr & Ho & Hm).
+    destruct (r_step_refines (vmax st) (vr st) q (v_plain it) HI) as [Hro HI'].
+    destruct (a_item_proj (vmax st) q (nseq (vr st)) (v_plain it)) as [Hp1 Hp2].
+    rewrite <- Hr in HI'.
+    destruct (IH _ _ HI') as [Ho' (q' & HI'' & Hq')].
+    rewrite v_run_cons, sv_run_cons. cbn [fst snd].
+    rewrite Ho, Hro, Hp2, Ho', Hm, Hp1. split; [reflexivity|].
+    exists q'. rewrite <- Hp1, <- Hm. auto.
+Qed.
+
+Lemma rinv_v0 max : RInv (vr (v_st0 max)) [].
+Proof. exact rinv0. Qed.
+
+Theorem v_fifo_full : forall max0 h, v_fifo max0 h.
+Proof.
+  intros max0 h. destruct (v_refines h (v_st0 max0) [] (rinv_v0 max0)) as [Ho (q' & (HI & Hs & _) & Hq')].
+  destruct HI as (Hm & _ & Hd & Hin).
+  unfold v_fifo, v_outputs, sv_outputs, v_final, sv_final. cbn [map v_st0 v_boot vmax] in *.
+  split; [exact Ho|]. split.
+  - rewrite Hm. exact Hq'.
+  - assert (E : db (core (vr (fst (v_run (v_st0 max0) h)))) = q') by (apply sorted_ext; assumption).
+    rewrite E. exact Hq'.
+Qed.
+
+(* the specification with changing bounds still means "exactly once, in order" *)
+Theorem sv_exactly_once : forall h max q,
+  q ++ sv_accepted max q h = sv_delivered max q h ++ fst (sv_run max q h).
+Proof.
+  induction h as [|it r IH]; intros max q.
+  - cbn. rewrite app_nil_r. reflexivity.
+  - rewrite sv_run_cons. cbn [sv_accepted sv_delivered fst].
+    rewrite app_assoc, spec_item, <- app_assoc, IH, app_assoc. reflexivity.
+Qed.
+
+Theorem sv_exactly_once0 : forall max0 h,
+  sv_accepted max0 [] h = sv_delivered max0 [] h ++ sv_final max0 h.
+Proof. intros max0 h. exact (sv_exactly_once h max0 []). Qed.
+
+(* a process start reloads EVERY record, whatever the old and the new bound, and numbers on above all of them *)
+Theorem v_start_loads_everything : forall st m,
+  vr (fst (v_step st (VStart m))) = r_boot (db (core (vr st))) /\
+  mem (core (vr (fst (v_step st (VStart m))))) = db (core (vr st)) /\
+  db (core (vr (fst (v_step st (VStart m))))) = db (core (vr st)) /\
+  vmax (fst (v_step st (VStart m))) = m /\
+  (forall k, In k (keys (db (core (vr st)))) -> k < nseq (vr (fst (v_step st (VStart m))))).
+Proof.
+  intros st m. unfold v_step, r_step. cbn [v_plain key_item step fst snd vr vmax r_boot load core mem db nseq].
+  repeat split; auto. intros k Hk. apply next_seq_gt; assumption.
+Qed.
+
+(* ... and so does the recovery from a crash: every record that was durable at the moment of death *)
+Theorem v_crash_loads_everything : forall st o n m,
+  exists d, vr (fst (v_step st (VCrash o n m))) = r_boot d /\
+    d = apply_ws (db (core (vr st))) (firstn n (snd (step_mem (vmax st) (mem (core (vr st))) (key_op (nseq (vr st)) o)))) /\
+    vmax (fst (v_step st (VCrash o n m))) = m.
+Proof.
+  intros st o n m. unfold v_step, r_step. cbn [v_plain key_item step].
+  destruct (step_mem (vmax st) (mem (core (vr st))) (key_op (nseq (vr st)) o)) as [[m' r] ws].
+  cbn [fst snd vr vmax load db]. eexists. repeat split.
+Qed.
+
+(* AddBatch enforces the bound of the process it runs in: an accepted submission found fewer than [max] batches
+   queued; a queue holding [max] or more (e.g. reloaded under a smaller bound) refuses, leaving no trace *)
+Theorem r_accept_below_bound : forall max rst ok s,
+  0 < max -> snd (r_step max rst (UOp (USubmit ok s))) = Some ROk -> s <> UNil -> s <> UEmpty ->
+  N.of_nat (length (mem (core rst))) < max.
+Proof.
+  intros max [[m d] sq] ok s Hm. unfold r_step. cbn [key_item step core mem db nseq].
+  destruct ok; destruct s as [| |b]; cbn [key_op step_mem fst snd]; try congruence;
+    try (intros E; inversion E; fail).
+  unfold full. destruct (0 <? max) eqn:E0; [|apply N.ltb_ge in E0; lia].
+  destruct (max <=? N.of_nat (length m)) eqn:E1; cbn [andb fst snd].
+  - intros E; inversion E.
+  - intros _ _ _. apply N.leb_gt in E1. exact E1.
+Qed.
+
+Theorem r_over_bound_refuses : forall max rst b,
+  0 < max -> max <= N.of_nat (length (mem (core rst))) ->
+  r_step max rst (UOp (USubmit true (UB b))) = (rst, Some RFull) /\ r_wlog max rst [UOp (USubmit true (UB b))] = [].
+Proof.
+  intros max [[m d] sq] b Hm Hl. unfold r_step. cbn [r_wlog wlog key_item step core mem db nseq key_op step_mem accepts] in *.
+  assert (F : full max m = true) by (unfold full; apply andb_true_iff; split; [apply N.ltb_lt | apply N.leb_le]; assumption).
+  rewrite F. cbn [fst snd apply_ws fold_left negb app]. auto.
+Qed.
+
+(* the bound, across process starts: the queue of a process never exceeds the larger of its bound and what its
+   Load found; the durable records are as many as the queue *)
+Definition VB (st : vstate) : Prop :=
+  0 < vmax st -> N.of_nat (length (mem (core (vr st)))) <= N.max (vmax st) (vload st).
+
+Lemma vb_step st it : VB st -> VB (fst (v_step st it)).
+Proof.
+  intros HB. unfold VB, v_step.
+  destruct it as [o|m|o n m]; cbn [v_plain].
+  - unfold r_step. cbn [key_item step].
+    destruct st as [[[mm d] sq] mx ld]. unfold VB in HB. cbn [vr vmax vload core mem db nseq] in *.
+    destruct o as [[] [| |b]|[]]; cbn [key_op step_mem accepts fst snd vr vmax vload core mem]; auto.
+    + destruct (full mx mm) eqn:F; cbn [fst snd vr vmax vload core mem]; auto.
+      intros Hm. specialize (HB Hm). unfold full in F. rewrite app_length. cbn [length]. lia.
+    + destruct mm as [|[k b] r]; cbn [fst snd vr vmax vload core mem]; auto.
+      intros Hm. specialize (HB Hm). cbn [length] in HB. lia.
+  - destruct (r_step (vmax st) (vr st) URestart) as [rst' r]. cbn [fst vr vmax vload]. lia.
+  - destruct (r_step (vmax st) (vr st) (UCrash o n)) as [rst' r]. cbn [fst vr vmax vload]. lia.
+Qed.
+
+Theorem v_bound_inv : forall h st, VB st -> VB (fst (v_run st h)).
+Proof.
+  induction h as [|it r IH]; intros st HB; [exact HB|].
+  rewrite v_run_cons. cbn [fst]. apply IH, vb_step, HB.
+Qed.
+
+Theorem v_bound_full : forall max0 h,
+  0 < vmax (v_final max0 h) ->
+  N.of_nat (length (mem (core (vr (v_final max0 h))))) <= N.max (vmax (v_final max0 h)) (vload (v_final max0 h)) /\
+  length (db (core (vr (v_final max0 h)))) = length (mem (core (vr (v_final max0 h)))).
+Proof.
+  intros max0 h Hm. split.
+  - apply (v_bound_inv h (v_st0 max0)); [|exact Hm]. intros _. cbn. lia.
+  - destruct (v_fifo_full max0 h) as (_ & H2 & H3).
+    pose proof (f_equal (@length batch) H2) as L2. pose proof (f_equal (@length batch) H3) as L3.
+    rewrite map_length in L2, L3. exact (eq_trans L3 (eq_sym L2)).
+Qed.
+
+(* histories whose process starts all use one bound are the histories of [r_run] *)
+Theorem v_run_const : forall max h st,
+  vmax st = max ->
+  vr (fst (v_run st (map (v_of max) h))) = fst (r_run max (vr st) h) /\
+  snd (v_run st (map (v_of max) h)) = snd (r_run max (vr st) h).
+Proof.
+  intros max. induction h as [|it r IH]; intros st Hm; [cbn; auto|].
+  cbn [map]. rewrite v_run_cons, r_run_cons. cbn [fst snd].
+  destruct (v_step_r st (v_of max it)) as (Hr & Ho & Hx).
+  assert (Hp : v_plain (v_of max it) = it) by (destruct it; reflexivity).
+  rewrite Hp, Hm in *.
+  assert (Hm' : vmax (fst (v_step st (v_of max it))) = max) by (rewrite Hx; destruct it; reflexivity).
+  destruct (IH _ Hm') as [H1 H2]. rewrite H1, H2, Hr, Ho. auto.
+Qed.
+
+Theorem v_const_outputs : forall max h,
+  v_outputs max (map (v_of max) h) = r_outputs max h /\ vr (v_final max (map (v_of max) h)) = r_final max h.
+Proof.
+  intros max h. destruct (v_run_const max h (v_st0 max) eq_refl) as [H1 H2].
+  unfold v_outputs, v_final, r_outputs, r_final. auto.
+Qed.
